@@ -130,7 +130,7 @@ var (
 	genMinDep     = []string{"-", "1", "1000", "6000"}
 	genTax        = []string{"0", "1", "1000000000000000", "100000000000000000", "500000000000000000", "999999999999999999"}
 	genSlash      = []string{"0", "1", "1000000000000000", "100000000000000000", "500000000000000000", "1000000000000000000"}
-	genPeriods    = [][2]int64{{1, 1}, {10 * nsPerSec, 10 * nsPerSec}, {15 * 24 * 3600 * nsPerSec, 5 * 24 * 3600 * nsPerSec}} // complaint, arbitration
+	genPeriods    = [][2]int64{{1, 1}, {10 * nsPerSec, 10 * nsPerSec}, {15 * 24 * 3600 * nsPerSec, 5 * 24 * 3600 * nsPerSec}, {1 << 62, 1 << 62}} // complaint, arbitration (the last pair: each legal, their sum beyond int64 nanoseconds)
 )
 
 // ---------------------------------------------------------------------------
@@ -1398,11 +1398,17 @@ func (g *gen) opEndBlock(adv bool) (*draft, bool) {
 	if dt == 0 {
 		dt = g.hp.arbitration + g.hp.complaint
 	}
+	// a block never jumps further than about three weeks (the periods themselves may be far larger — up to 2^62 ns each,
+	// their sum beyond int64 —: then no history waits for them)
+	const maxDt = 2000000000000000
+	if dt <= 0 || dt > maxDt {
+		dt = 5 * nsPerSec
+	}
 	// time boundaries around the instant a disabled binding becomes refundable
 	var waits []int64
 	for _, b := range g.v.bindings {
 		if !b.Available && !b.Deposit.IsZero() {
-			if w := g.refundableAt(b).Sub(g.v.now); w > 0 {
+			if w := g.refundableAt(b).Sub(g.v.now); w > 0 && int64(w) <= maxDt {
 				waits = append(waits, int64(w))
 			}
 		}
